@@ -52,6 +52,12 @@ type caseMon struct {
 
 	emissions []bbrig.Emission // not yet judged (concurrent phase)
 	scSeen    map[string]bool  // sf- keys ever seen live
+
+	// released at least once: records that left the map wait for their release
+	cleanups int             // cleanup cycles seen so far (single-threaded phase)
+	live     map[uintptr]bool
+	vanished map[uintptr]int // record -> cleanups at the time it was seen to have left the map
+	putCount map[uintptr]int // record -> pool puts since it was last seen live
 }
 
 func (m *caseMon) trail() []string {
@@ -116,6 +122,8 @@ func (m *caseMon) onPut(ptr uintptr, sp base.StagePoint, isSC bool) {
 	m.mu.Lock()
 	m.puts = append(m.puts, putEvent{Ptr: fmt.Sprintf("%x", ptr), SP: sp.String(), IsSC: isSC})
 	_, known := m.known[ptr]
+	m.putCount[ptr]++
+	delete(m.vanished, ptr)
 	m.mu.Unlock()
 	if !known {
 		r.Count("pool_puts_of_records_never_sampled", 1)
@@ -194,6 +202,20 @@ func (m *caseMon) structural(recs []isaacstates.VerifRecord) (sigs, whats []stri
 
 func (m *caseMon) remember(recs []isaacstates.VerifRecord) {
 	m.mu.Lock()
+	now := map[uintptr]bool{}
+	for _, rec := range recs {
+		now[rec.Ptr] = true
+		delete(m.vanished, rec.Ptr)
+		m.putCount[rec.Ptr] = 0
+	}
+	for ptr := range m.live {
+		if !now[ptr] {
+			if _, ok := m.vanished[ptr]; !ok {
+				m.vanished[ptr] = m.cleanups
+			}
+		}
+	}
+	m.live = now
 	for _, rec := range recs {
 		m.known[rec.Ptr] = rec.Key
 		if strings.HasPrefix(rec.Key, "sf-") {
@@ -321,6 +343,37 @@ func (m *caseMon) sample(cleaned, exact bool) {
 						}
 					}
 				}
+			}
+		}
+	}
+
+	// released (at least) once: a record that left the map in an earlier
+	// cleanup is handed to the pool by the next one
+	if cleaned && exact {
+		overdue := func() (uintptr, bool) {
+			m.mu.Lock()
+			defer m.mu.Unlock()
+			for ptr, at := range m.vanished {
+				if at < m.cleanups-1 { // left the map, and a whole later cleanup has run since
+					return ptr, true
+				}
+			}
+			return 0, false
+		}
+		if _, bad := overdue(); bad {
+			var ptr uintptr
+			for i := 0; i < 60 && bad; i++ {
+				time.Sleep(3 * time.Millisecond)
+				m.settle()
+				ptr, bad = overdue()
+			}
+			if bad {
+				m.mu.Lock()
+				key := m.known[ptr]
+				m.mu.Unlock()
+				m.violation("release:removed-record-never-released:"+keyClass(key),
+					fmt.Sprintf("record %x (last seen under key %q) left the record map, a later cleanup has run, and the record was never handed to the pool", ptr, key), nil)
+				return
 			}
 		}
 	}
@@ -478,7 +531,8 @@ func scriptHash(steps []bbrig.Step) string {
 
 func newMon(r *vlib.Run, b built) *caseMon {
 	d := bbrig.NewDriver(b.w, bbrig.DriverOpts{Interval: time.Millisecond, CountAfter: time.Millisecond, Start: true})
-	m := &caseMon{r: r, d: d, cp: b.cp, steps: b.steps, known: map[uintptr]string{}, scSeen: map[string]bool{}}
+	m := &caseMon{r: r, d: d, cp: b.cp, steps: b.steps, known: map[uintptr]string{}, scSeen: map[string]bool{},
+		live: map[uintptr]bool{}, vanished: map[uintptr]int{}, putCount: map[uintptr]int{}}
 	current.Store(m)
 	return m
 }
@@ -536,6 +590,9 @@ func runSingle(r *vlib.Run, b built) (cleanups int) {
 			cleaned := st.Op != "setlast" && m.d.Box.LastPoint() != lastBefore
 			if cleaned {
 				cleanups++
+				m.mu.Lock()
+				m.cleanups++
+				m.mu.Unlock()
 			}
 			lastBefore = m.d.Box.LastPoint()
 			m.sample(cleaned, true)
@@ -543,6 +600,9 @@ func runSingle(r *vlib.Run, b built) (cleanups int) {
 			m.judge(m.d.Drain())
 			if m.d.Box.LastPoint() != lastBefore && !m.aborted.Load() {
 				cleanups++
+				m.mu.Lock()
+				m.cleanups++
+				m.mu.Unlock()
 				m.sample(true, true)
 			}
 		}
